@@ -8,29 +8,12 @@ EXTRA_PROPERTY_FILES = ("Properties_format", "Properties_cursor", "Properties_de
 TOOLS = True
 OPS = ["D pk", "D u", "D n", "D i", "D b", "D bs", "D ts", "D as", "D ms", "D br", "D sk"]
 
-def narrow_ancount(l):
-    """GenericQueryResponse::query_ancount is a uint16_t, QueryResponseSignature::query_ancount a uint32_t: read_generic_qr narrows a stored
-    count above 65535 (only files of other writers hold one; the model's generic record carries the member as wide as it is stored - DESIGN.md
-    section 8). The narrowing is applied here, to both sides."""
-    if not l.startswith("qr R[ "): return l
-    t = l.split(" ")
-    depth, member = 0, -1
-    for i in range(1, len(t)):              # t[1] = "R[" opens the record; its members are the items at depth 1
-        tok = t[i]
-        if depth == 1 and tok != "]": member += 1
-        if tok.endswith("["): depth += 1
-        elif tok == "]": depth -= 1
-        elif depth == 1 and member == 14 and tok.startswith("N") and tok[1:].isdigit():
-            t[i] = "N%d" % (int(tok[1:]) % 65536)
-        if depth == 0: break
-    return " ".join(t)
-
 def loosen(lines):
     """file-level reads of malformed input: the class of the exception is not compared, and nothing after it"""
     out = []
     for l in lines:
         if l.startswith("throw "): out.append("throw"); break
-        out.append(narrow_ancount(l))
+        out.append(l)
     return out
 
 def valid_files(ctx, sch, rng, n):
